@@ -375,7 +375,7 @@ func (s *Sess) CreateURR(req *ie.IE) error {
 			break
 		}
 	}
-	s.URRIDs[id] = &URRInfo{
+	urrInfo := &URRInfo{
 		MeasureMethod: report.MeasureMethod{
 			DURAT: req.HasDURAT(),
 			VOLUM: req.HasVOLUM(),
@@ -389,11 +389,19 @@ func (s *Sess) CreateURR(req *ie.IE) error {
 			MNOP: mInfo.HasMNOP(),
 		},
 	}
+	if _, existed := s.URRIDs[id]; !existed {
+		// recorded before the driver call, so that a failed create is cleaned up later
+		s.URRIDs[id] = urrInfo
+	}
 
 	err = s.rnode.driver.CreateURR(s.LocalID, req)
 	if err != nil {
+		// nothing was installed (e.g. the URR exists already): an installed
+		// URR keeps its report sequence number and its PDR references
 		return err
 	}
+	// a new URR, also under an id the session had recorded before
+	s.URRIDs[id] = urrInfo
 	return nil
 }
 
